@@ -235,7 +235,7 @@ def case_population(case, res):
                 stack.append(taken[:i] + [alt])
         if 'shuffle' in case:           # replay of one outcome
             break
-        if runs >= 60:
+        if runs >= 400:
             res.count('shuffle_cap_hits')
             break
     res.count('populations')
@@ -595,7 +595,7 @@ def run(tier, seed, started):
         'distinct_nontrivial': c['populations'] + c['peers_built'],
         'rule': ('A: product of per-slot peer states x onion count x own-identity state x requester, '
                  'each with every permutation outcome of random.shuffle for buckets of <= 3 peers and '
-                 '4 outcomes for larger lists (at most 60 outcome combinations per population, cap '
+                 '4 outcomes for larger lists (at most 400 outcome combinations per population, cap '
                  'counted); B: every host of a 45-host alphabet x every pair of port values of a '
                  '30-value JSON alphabet, plus container shapes; C: every sequence of peer-life events '
                  'up to the stated depth over the stated alphabet, two shuffle outcomes per '
